@@ -249,7 +249,7 @@ Definition de_td (d : reader schema) : reader traitdef :=
     | [] => Panic
     | name :: segs =>
         match scan_segments segs false false with
-        | None => Panic                 (* panic!("Unexpected trait name encountered") *)
+        | None => Err EGeneral          (* since fix F17: GeneralError "Unexpected trait name encountered" (was a panic) *)
         | Some (sync, send) =>
             let* (methods, r) := rd_vec (de_method d) r in
             Ok (TD name methods sync send, r)
